@@ -65,7 +65,7 @@ def rule_tc(rep, db):
         regs = RG.regions_of(s)
         for reg in regs:
             nreg += 1
-            dom = RG.RegionDomain(reg, "_source")
+            dom = RG.RegionDomain(reg, fn["params"][0]["name"])
             holder["dom"] = dom
             it = sx.Interp(db, cfg, oracle=dom.oracle)
             try:
@@ -126,7 +126,7 @@ def rule_from_int(rep, db):
         bad = None
         regs = RG.regions_of(vt, extra_cuts=(size,))
         for reg in regs:
-            dom = RG.RegionDomain(reg, "_value")
+            dom = RG.RegionDomain(reg, fn["params"][0]["name"])
             holder["dom"] = dom
             it = sx.Interp(db, cfg, oracle=dom.oracle)
             try:
@@ -159,7 +159,7 @@ def rule_from_int(rep, db):
 def rule_clamp(rep, db):
     cfg = sx.Config(inline_prefixes=("fcppt::optional::", "fcppt::cond"))
     seen = set()
-    names = ["_value", "_vmin", "_vmax"]
+    names = ["r_a0", "r_a1", "r_a2"]   # clamp(value, min, max): parameters by position
     for fn in db.fns("fcppt::math::clamp"):
         ta = tuple(fn.get("targs") or [])
         if ta in seen:
@@ -291,6 +291,7 @@ def rule_mirror(rep, db):
         u = fn["_unit"]
         ret = [n for n in F.walk(fn.get("body")) if n.get("k") == "return"]
         t = T.show(T.norm(u, ret[0]["e"])) if ret else ""
+        t = t.replace(fn["params"][0]["name"], "x")
         ok = t.replace(" ", "") in ("(x&&!(x&(x-1)))", "(nz(x)&&!nz((x&(x-1))))") or ("&&" in t and "(x & (x - 1))" in t and "!" in t)
         (rep.ok if ok else rep.fail)("MIRROR", "is_power_of_2", F.primary_site(fn), F.describe(fn), **({"how": "x && !(x & (x-1))"} if ok else {"why": "expression is %s, specification x && !(x & (x - 1))" % t}))
     seen = set()
@@ -308,7 +309,7 @@ def rule_mirror(rep, db):
             r = T.norm(u, e["r"])
             t = T.show(T.norm(u, e))
             zero = r == ("k", "0") or (isinstance(r, tuple) and r[0] == "c" and r[1] == "fcppt::literal" and r[3] == (("k", "0"),))
-            ok = l is not None and l.get("k") == "binop" and l.get("op") == "&" and zero and "_value" in T.show(T.norm(u, l)) and "_mask" in T.show(T.norm(u, l))
+            ok = l is not None and l.get("k") == "binop" and l.get("op") == "&" and zero and "r_a0" in T.show(T.norm(u, l)) and "r_a1" in T.show(T.norm(u, l))
         (rep.ok if ok else rep.fail)("MIRROR", "bit::test", F.primary_site(fn), F.describe(fn), **({"how": "(value & mask) != 0"} if ok else {"why": "expression is %s, specification (value & mask) != 0" % t}))
 
 
